@@ -166,6 +166,8 @@ def spec (caseLine implLine : String) : String :=
     if implLine.startsWith "PANIC" then s!"FAIL panic {implLine}" else
     if implLine.startsWith "HANG" then s!"FAIL hang {implLine}" else
     if implLine.startsWith "CRASH" then s!"FAIL crash {implLine}" else
+    if (implLine.splitOn " after-cancel=").length > 1 then
+      "FAIL tick-after-cancel the ticker's channel yielded a value after its context had ended although the clock had not moved (a consumer takes it for a tick)" else
     match tokens implLine with
     | tr :: rest =>
       match (stripPrefix "tr=" tr).bind intOfTok with
